@@ -33,6 +33,10 @@ struct Case
 {
     RtConfig cfg;
     std::vector<Channel> ch;
+    // bystanders: tasks parked on a latch for the whole case, so that every queue's thread map sits above
+    // pika.thread_queue.max_thread_count while the channels play ping-pong (wake-up helper tasks and woken tasks must
+    // still get converted / scheduled on such "full" queues)
+    int crowd = 0;
 };
 
 static Case decode(tape_t const& tape)
@@ -71,6 +75,11 @@ static Case decode(tape_t const& tape)
         ch.notify_under_lock = t.chance(1, 2);
         c.ch.push_back(ch);
     }
+    {
+        int per_worker = t.pick({0, 0, 14, 40});
+        if (c.cfg.workers <= 2 && t.chance(1, 10)) per_worker = 1000;
+        c.crowd = per_worker * c.cfg.workers;
+    }
     return c;
 }
 
@@ -88,7 +97,7 @@ static std::string describe(tape_t const& tape)
            << "], \"delays_waiter\": [" << h.d_waiter[0] << "," << h.d_waiter[1] << "," << h.d_waiter[2] << "], \"notify_all\": "
            << (h.notify_all ? "true" : "false") << ", \"notify_under_lock\": " << (h.notify_under_lock ? "true" : "false") << "}";
     }
-    os << "]}";
+    os << "], \"parked_bystander_tasks\": " << c.crowd << "}";
     return os.str();
 }
 
@@ -225,6 +234,16 @@ static Outcome run(tape_t const& tape)
     Quiescence q;
     q.start();
     std::vector<std::thread> os_threads;
+    // bystanders first; they are released by whoever finishes the last channel
+    pika::latch crowd_latch(1);
+    std::atomic<int> parts_left{2 * static_cast<int>(chans.size())};
+    std::atomic<int> crowd_parked{0};
+    auto part_done = [&](int n) {
+        if (parts_left.fetch_sub(n) == n) crowd_latch.count_down(1);
+    };
+    for (int k = 0; k < c.crowd; ++k)
+        ex::execute(ex::thread_pool_scheduler{}, [&] { crowd_parked.fetch_add(1); crowd_latch.wait(); });
+    if (chans.empty()) crowd_latch.count_down(1);
     auto prio_of = [](int k) {
         using P = pika::execution::thread_priority;
         return k == 0 ? P::normal : k == 1 ? P::high : P::boost;
@@ -243,7 +262,7 @@ static Outcome run(tape_t const& tape)
         if (ch->spec.fac == F_JOIN)
         {
             // waiter creates a pika::thread per round and joins it; the "waker" is the thread's termination
-            ex::execute(ws, [ch] {
+            ex::execute(ws, [ch, &part_done] {
                 for (int r = 0; r < ch->spec.rounds; ++r)
                 {
                     pika::thread th([ch, r] {
@@ -268,11 +287,12 @@ static Outcome run(tape_t const& tape)
                     ch->ack.store(r + 1);
                 }
                 ch->done.store(2);
+                part_done(2);
             });
             continue;
         }
         // waiter
-        ex::execute(ws, [ch] {
+        ex::execute(ws, [ch, &part_done] {
             for (int r = 0; r < ch->spec.rounds; ++r)
             {
                 delay(ch->spec.d_waiter[r % 3], true);
@@ -281,12 +301,13 @@ static Outcome run(tape_t const& tape)
                 if (!ch->spec.os_waker) ch->ack_sem.release(1);
             }
             ch->done.fetch_add(1);
+            part_done(1);
         });
         // waker
         if (ch->spec.os_waker)
         {
             G().external_actors.fetch_add(1);
-            os_threads.emplace_back([ch] {
+            os_threads.emplace_back([ch, &part_done] {
                 for (int r = 0; r < ch->spec.rounds; ++r)
                 {
                     delay(ch->spec.d_waker[r % 3], false);
@@ -301,12 +322,13 @@ static Outcome run(tape_t const& tape)
                     G().external_actors.fetch_add(1);
                 }
                 ch->done.fetch_add(1);
+                part_done(1);
                 G().external_actors.fetch_sub(1);
             });
         }
         else
         {
-            ex::execute(ks, [ch] {
+            ex::execute(ks, [ch, &part_done] {
                 for (int r = 0; r < ch->spec.rounds; ++r)
                 {
                     delay(ch->spec.d_waker[r % 3], true);
@@ -314,6 +336,7 @@ static Outcome run(tape_t const& tape)
                     ch->ack_sem.acquire();
                 }
                 ch->done.fetch_add(1);
+                part_done(1);
             });
         }
     }
@@ -346,6 +369,8 @@ static Outcome run(tape_t const& tape)
     for (auto& ch : chans) out.tags.push_back(std::string("fac:") + fac_names[ch->spec.fac] + (ch->spec.os_waker ? "/os_waker" : "/task_waker"));
     if (G().active_retry.load() > 0) out.tags.push_back("saw:active_target_helper");
     if (G().suspends.load() > 0) out.tags.push_back("saw:suspend");
+    if (c.crowd) out.tags.push_back(c.crowd / c.cfg.workers + 10 > c.cfg.max_thread_count ? "has:parked_bystanders_above_the_queues_thread_limit" : "has:parked_bystanders");
+    out.counters["bystanders_parked"] = crowd_parked.load();
     return out;
 }
 
